@@ -238,6 +238,9 @@ def _features(m, spec, desc, ctx, rng, feat):
                     break
             if bad:
                 ctx.violation('densify_mismatch', dict(desc, request=req), 'get_features: ' + bad, f)
+            if isinstance(r.value, np.ndarray) and r.value.flags.writeable:
+                r.value[...] = 7.5          # the caller's own array: later requests (and F, the stored data) must not change
+                ctx.mon('returned_features_modified')
     # history: the caller refills ONE spike-id buffer in place between requests on the same model
     k = int(rng.integers(2, min(6, ns) + 1))
     buf = np.zeros(k, dtype=np.int64)
